@@ -147,7 +147,7 @@ func evalCreds(c *Ctx, tok string, seedKP nkeys.KeyPair, nl string, lead string)
 }
 
 func runC15(c *Ctx) {
-	c.Res.Rule = "user tokens from ~150 to ~4000 characters (every base64url character class occurs) x user / account / operator seeds x LF / CRLF x leading blank lines: FormatUserConfig -> ParseDecoratedJWT / ParseDecoratedNKey / ParseDecoratedUserNKey must return the same token text and a key pair with the same seed and public key; DecorateJWT of every claim kind parses back unchanged; a bare token parses to itself; non-user tokens / seeds are refused; the user-only key parser refuses operator and account seeds. The model's hand matcher is compared with Go's regexp on structured adversarial text (dash runs of 2/3/5/6, dashes inside token lines, missing final newline, CR placement). non-trivial = distinct texts."
+	c.Res.Rule = "user tokens from ~150 to ~4000 characters (every base64url character class occurs) x user / account / operator seeds x LF / CRLF x leading blank lines: FormatUserConfig -> ParseDecoratedJWT / ParseDecoratedNKey / ParseDecoratedUserNKey must return the same token text and a key pair with the same seed and public key; DecorateJWT of every claim kind parses back unchanged, also when the returned slice is kept and parsed again after later DecorateJWT / FormatUserConfig calls; a bare token parses to itself; non-user tokens / seeds are refused; the user-only key parser refuses operator and account seeds. The model's hand matcher is compared with Go's regexp on structured adversarial text (dash runs of 2/3/5/6, dashes inside token lines, missing final newline, CR placement). non-trivial = distinct texts."
 	// ---- round trips
 	for i := 0; i < c.N(60, 3000); i++ {
 		u := jwt.NewUserClaims(pubOf(kpN('U', c.R.Intn(4))))
@@ -167,11 +167,27 @@ func runC15(c *Ctx) {
 		}
 	}
 	// ---- refusals: non-user tokens, non-user seeds
+	// results of earlier calls are kept (the very slices the library returned) and parsed again after every later
+	// call: an output must not change under the caller's feet
+	type heldOut struct {
+		out []byte
+		tok string
+	}
+	var held []heldOut
+	recheck := func(after string) {
+		for _, h := range held {
+			back, _ := jwt.ParseDecoratedJWT(h.out)
+			if back != h.tok {
+				c.Violate("token-roundtrip", "a decorated token kept by the caller parses to a different token after a later "+after+" call", c15Replay{"decorate-held", string(h.out), h.tok, ""})
+			}
+		}
+	}
 	for _, kind := range allKinds {
 		tok, err := validToken(c.R, kind, "v2")
 		must(err)
 		for _, role := range []byte{'U', 'A', 'O'} {
 			evalCreds(c, tok, kpN(role, 1), "\n", "")
+			recheck("FormatUserConfig")
 		}
 		// decorate + parse back, bare token
 		var dec []byte
@@ -192,6 +208,8 @@ func runC15(c *Ctx) {
 			c.Violate("decorate", "DecorateJWT refused a decodable "+kind+" token", c15Replay{"decorate", "", tok, ""})
 			continue
 		}
+		held = append(held, heldOut{dec, tok})
+		recheck("DecorateJWT")
 		for _, nl := range []string{"\n", "\r\n"} {
 			text := strings.ReplaceAll(string(dec), "\n", nl)
 			back, _ := jwt.ParseDecoratedJWT([]byte(text))
